@@ -386,6 +386,12 @@ class String:
     @security.private
     def cook(self):
         with COOKLOCK:
+            # a source that does not compile must not leave the blocks that
+            # were compiled from an earlier source in charge
+            try:
+                del self._v_cooked
+            except AttributeError:
+                pass
             self._v_blocks = self.parse(self.read())
             self._v_cooked = None
 
